@@ -67,6 +67,7 @@ def triage(ctx, results, seed, max_report=10):
     for (_f, _ln, chk, e) in fails:
         by_sig.setdefault(signature(e, chk), (e, chk))
     reported = 0
+    flaky = []
     for sig, (e, chk) in sorted(by_sig.items()):
         if reported >= max_report:
             break
@@ -76,10 +77,15 @@ def triage(ctx, results, seed, max_report=10):
         failed = fam.validate_events(ctx, evs, MODULE, "repro")
         hit = [(i, c) for i, cs in failed.items() for c in cs if c == chk]
         if not hit:
-            raise vf.Infra("divergence %s did not reproduce (first seen: %s)" % (sig, describe(e, {chk})))
+            flaky.append("divergence %s did not reproduce (first seen: %s)" % (sig, describe(e, {chk})))
+            continue
         e2 = evs[hit[0][0]]
         if vf.report(ctx, sig, describe(e2, failed[hit[0][0]]), {"tool": TOOL, "seed": seed, "one": json.loads(one_arg(e2)), "check": chk, "event": e2}):
             reported += 1
+    if flaky:
+        ctx.notes += flaky
+        if not ctx.violations:
+            raise vf.Infra("; ".join(flaky[:3]))
     return len(by_sig)
 
 
